@@ -5,6 +5,8 @@
 
 package sweep
 
+//@ load-pkg github.com/lightningnetwork/lnd/lnwallet/chainfee
+
 //@ spec func wfFee(cur int, end int, pos int, width int) bool = cur <= end && (pos >= width ==> cur == end)
 //@
 //@ // ---- A-fp: btcutil.Amount.MulF64 and float64 conversion/division are uninterpreted; the axioms
@@ -96,7 +98,9 @@ package sweep
 //@   nowrap
 //@   modifies l.position, l.currentFeeRate
 //@
+//@ // float arithmetic (1000 / float64(wu), MulF64): not decidable from the body with the A-fp axioms, stays assumed
 //@ extern func chainfee.NewSatPerKWeight
+//@   unchecked
 //@   ensures fee >= 0 ==> result >= 0
 //@ extern func (*atomic.Int32) Load
 //@   ensures 0 <= result && result <= 1<<30
